@@ -1012,7 +1012,7 @@ func (w *_mapAssemblerRepr) AssembleKey() datamodel.NodeAssembler {
 
 func (w *_mapAssemblerRepr) AssembleValue() datamodel.NodeAssembler {
 	asm := (*_mapAssembler)(w).AssembleValue()
-	return (*_assemblerRepr)(asm.(*_assembler))
+	return assemblerRepr(asm) // (may be an error-reporting assembler, for a repeated key)
 }
 
 func (w *_mapAssemblerRepr) AssembleEntry(k string) (datamodel.NodeAssembler, error) {
@@ -1020,6 +1020,9 @@ func (w *_mapAssemblerRepr) AssembleEntry(k string) (datamodel.NodeAssembler, er
 		return nil, err
 	}
 	am := w.AssembleValue()
+	if am, ok := am.(_errorAssembler); ok {
+		return nil, am.err
+	}
 	return am, nil
 }
 
